@@ -4,6 +4,16 @@ import json, os
 V = os.path.dirname(os.path.dirname(os.path.abspath(__file__)))
 
 CHECKS = {
+    "C09": dict(
+        text="Coq theorems over a transition system of the serving side (receive goroutine, task loop, one goroutine per request, Close), for every schedule: a running handler's context is cancelled only because the peer cancelled that very call or the transport is closing, and once the task loop has exited every handler still running has been cancelled. The monitor is evaluated on event logs of the real transport for every set of <= 3 (thorough: 4, sampled 5) concurrent handlers, every finish/cancel order and a Close or EOF at every position, plus long histories and Close during request decoding.",
+        note="Trusted: Coq kernel, extraction + OCaml glue, Go harness (a watcher goroutine per handler context). Environment hypotheses: the peer's call seqnos are non-negative and not reused while being served. The task-key mechanism is regenerated from the source (generated_ok).",
+        technique="Coq proof (LTS invariants over all schedules; monitor acceptance; refutation of the pre-repair mechanism) + monitors on implementation traces",
+        design="6/C09"),
+    "C11": dict(
+        text="Coq theorems: once the transport has stopped no goroutine of the serving side (receive goroutine, end-of-handler reports, task loop) or sending side (callers, notifiers) can be parked for ever - every blocked program point has an enabled step, for the select arms regenerated from the current source. The harness stops transports by Close, EOF, read errors and stream cuts at every byte offset with handlers and calls in flight, Close during request decoding, duplicated replies, then releases everything and requires an empty goroutine dump (filtered to the package) and an exact pending-call table at quiescence.",
+        note="PARTIAL: actual goroutine exit and table size are observed (runtime.Stack, white-box accessor); the theorems give enabledness. Trusted: as C09.",
+        technique="Coq proof (enabledness invariants over all schedules; refutation of the pre-repair mechanism) + goroutine/table census on the implementation",
+        design="6/C11"),
     "C03": dict(
         text="Coq theorems over a transition system of the send side (any number of senders, one writer goroutine, unbuffered hand-off, contexts ending at any step, every schedule): every Write is one whole frame within the limit, a refused or abandoned send contributes no byte, the size check refuses exactly the encodings above the maximum. The same monitors are evaluated on event logs of the real transport under stalled writes, cancellations, timeouts and payload sizes max-3..max+3 for every kind.",
         note="Trusted: Coq kernel, extraction + OCaml glue (abstraction of the event log), Go harness. Modelled not verified: Go channel/select semantics as encoded in Model/Writer.v; the select arms are regenerated from the source (generated_ok). Promptness is proved as enabledness, bounded time is tested.",
